@@ -27,8 +27,9 @@
    handleReorg and the deletion of the tracked range after it) are atomic steps; RPC answers within a step come from one
    chain version.  In particular the model cannot exhibit: a tick straddling a chain switch; AddBlockToTrack (memory, then
    INSERT) racing with a tick (seen in the free-running stream: a row left in tracked_block although memory is empty);
-   a restarted download tracking a block before the detector has deleted the old range; deadlock of the rendez-vous;
-   Subscribe before Start. *)
+   a restarted download tracking a block before the detector has deleted the old range (reproduced on the real code with a
+   slowed-down detector: harness/c06/testdata/race_tracked_range_delete_after_restart.json — the block is processed but
+   untracked and a later reorg of it is never detected); deadlock of the rendez-vous; Subscribe before Start. *)
 From Coq Require Import NArith List Bool Sorted Lia.
 From Verif Require Import Model.Downloader Model.ReorgDetector Proofs.DownloaderProofs Proofs.ReorgDetectorProofs.
 From Coq Require String.
@@ -169,10 +170,10 @@ Proof. exact converge_proof. Qed.
 Theorem converge_download_is_C05_run : forall cfg, 1 <= c_chunk cfg -> forall U : version -> Prop,
   (forall u v, U u -> U v -> linked u v) -> forall B LIM, LIM < M64 -> forall r s es,
   Settled cfg U B LIM (polls es + r) s -> Tight s ->
-  y_dl s = dl_init (sync_from (lp (y_store s))) -> y_chan s = [] ->
+  y_dl s = dl_init (sync_from (lp (y_store s))) [] -> y_chan s = [] ->
   trace_ok cfg U B s es -> calm_trace cfg s es ->
   let V := cur s in
-  let out := dl_run cfg (v_logs V) (dl_init (sync_from (lp (y_store s)))) (ticks_of cfg s es) in
+  let out := dl_run cfg (v_logs V) (dl_init (sync_from (lp (y_store s))) []) (ticks_of cfg s es) in
   y_dl (run cfg s es) = fst out /\
   all_blocks (run cfg s es) = y_store s ++ map (pbv V) (snd out) /\
   y_rewinds (run cfg s es) = y_rewinds s /\
@@ -186,15 +187,15 @@ Proof. exact calm_run_proof. Qed.
 Theorem converge_progress : forall cfg, 1 <= c_chunk cfg -> forall U : version -> Prop,
   (forall u v, U u -> U v -> linked u v) -> forall B LIM, LIM < M64 -> forall r s es pre post k B0,
   Settled cfg U B LIM (polls es + r) s -> Tight s ->
-  y_dl s = dl_init (sync_from (lp (y_store s))) -> y_chan s = [] ->
+  y_dl s = dl_init (sync_from (lp (y_store s))) [] -> y_chan s = [] ->
   trace_ok cfg U B s es -> calm_trace cfg s es ->
   ticks_of cfg s es = pre ++ post ->
   let from0 := sync_from (lp (y_store s)) in
   let ch := v_logs (cur s) in
   B0 + 1 + (N.of_nat (length (pre ++ post)) + 1) * c_chunk cfg < M64 ->
   tips_ok B0 from0 (pre ++ post) ->
-  rising k (s_last (fst (dl_run cfg ch (dl_init from0) pre))) post ->
-  2 * (k + 1 - s_from (fst (dl_run cfg ch (dl_init from0) pre))) + 3 <= N.of_nat (length post) ->
+  rising k (s_last (fst (dl_run cfg ch (dl_init from0 []) pre))) post ->
+  2 * (k + 1 - s_from (fst (dl_run cfg ch (dl_init from0 []) pre))) + 3 <= N.of_nat (length post) ->
   k <= lp (all_blocks (run cfg s es)) /\ y_rewinds (run cfg s es) = y_rewinds s.
 Proof. exact converge_progress_proof. Qed.
 
